@@ -45,6 +45,10 @@ func init() {
 		Level:       "held on every executed case: complete enumeration of all maps with up to 3 (thorough 4) entries over 4 keys x 3 values x five value predicates x all key lists up to length 3, all collections of up to 3 (4) maps from a pool of 8, plus seeded random larger maps; each case executed 4 times on freshly built maps; results compared with references as sets/maps or by their defining property",
 		Technique:   "differential monitor + defining-property checkers, each case repeated to sample map iteration orders",
 		Assumptions: []string{"the references are trusted", "Go's per-range random iteration start is the source of iteration-order diversity (4 executions per case)", "Pick with an empty key list returns an error by documentation (only its empty result is checked)"}})
+	reg(&propCfg{ID: "C15", Pkg: "./props/c15", Variants: simple(false),
+		Level:       "held on every executed case: complete enumeration of all strings of up to 4 (thorough 5) symbols over {a,B,é,',*,space} x offsets/lengths/indices/sizes in len±3 x 7 tokens, all strings up to length 6 (7) over the token characters for Unwrap, all 1-3 word phrases over an 8-word vocabulary x 8 separator runs for the case styles, plus seeded random longer inputs incl. multi-byte runes and NUL; compared with byte-level references and round-trip identities",
+		Technique:   "differential monitor against byte-level references + round-trip identities",
+		Assumptions: []string{"the references are trusted (Substr: out-of-range selection = empty string, as the property restates the PHP rule)", "not asserted: Pad* with an empty token, case mapping/WrapAllRune on invalid UTF-8, the case styles outside ASCII alphanumeric words joined by runs of ' -_&'"}})
 	reg(&propCfg{ID: "C04", Pkg: "./props/c04", Variants: simple(false),
 		Technique:   "reference-model trace monitor (map model) over systematic small-scope sweep + seeded random sequences",
 		Assumptions: []string{"the map model and the generators are trusted", "single goroutine; concurrency is C01/C02"}})
